@@ -109,10 +109,16 @@ fn main() {
                 count: 0,
             };
             let mut rng = rng::Rng::new(seed);
-            gen::generate(prop, &mut rng, n, &mut sink);
+            // a generator that trips over a state it did not expect (the implementation accepted something the
+            // generator's mirror cannot follow) must not lose the operations already executed: they are analysed
+            let r = std::panic::catch_unwind(std::panic::AssertUnwindSafe(|| gen::generate(prop, &mut rng, n, &mut sink)));
             sink.ops.flush().unwrap();
             sink.imp.flush().unwrap();
-            println!("generated {} ops", sink.count);
+            if r.is_err() {
+                println!("generator stopped early after {} ops", sink.count);
+            } else {
+                println!("generated {} ops", sink.count);
+            }
         }
         _ => {
             eprintln!("usage: harness run <ops> <impl_out> | genrun <prop> <seed> <n> <ops_out> <impl_out>");
